@@ -146,6 +146,8 @@ def mul_terms(a, b):
             _int_to_real(b) if z3.is_int(b) else b)
     f = uf('MUL', R, R, R)
     t = f(a, b)
+    if ENG is not None and getattr(ENG, 'lemmas', False):
+        ENG.mul_lemmas(t, a, b)
     if ENG is not None and not z3.eq(a, b):
         # commutativity instance (the arguments may be syntactically
         # different forms of the same values elsewhere)
@@ -635,6 +637,34 @@ class Engine(object):
         self.model = new_model
         return v
 
+    def proves(self, t):
+        """does the path condition entail t (one solver query)?"""
+        r, _ = self._check(z3.Not(t))
+        return r == 'unsat'
+
+    def mul_lemmas(self, t, a, b):
+        """sound facts about an (uninterpreted) product, derived from what
+        the path condition entails about the factors - a cut from the
+        nonlinear theory into the linear pool, listed in the evidence."""
+        key = ('mul-lemma', t.get_id())
+        if key in self.decided:
+            return
+        self.decided[key] = True
+        facts = [z3.Implies(b == 1, t == a), z3.Implies(a == 1, t == b),
+                 z3.Implies(z3.Or(a == 0, b == 0), t == 0)]
+        an, bn = self.proves(a >= 0), self.proves(b >= 0)
+        if an and bn:
+            facts.append(t >= 0)
+            if self.proves(a > 0) and self.proves(b > 0):
+                facts.append(t > 0)
+            if self.proves(a <= 1):
+                facts.append(t <= b)
+            if self.proves(b <= 1):
+                facts.append(t <= a)
+        for f in facts:
+            self.add(f)
+        self.stats['lemma_cuts'] = self.stats.get('lemma_cuts', 0) + len(facts)
+
     def scoped(self, cond):
         """context manager: obligations inside hold under an additional
         assumption that is dropped again afterwards (no decisions inside)."""
@@ -703,6 +733,14 @@ class Engine(object):
             return True
         if r == 'sat':
             self.stats['failed'] += 1
+            # prefer a counterexample of moderate magnitude (replay uses
+            # real exp/log); the verdict does not depend on it
+            tame = [z3.And(x >= -40, x <= 40) for _, x in self.inputs +
+                    self.apps if z3.is_real(x)]
+            if tame:
+                r2, m2 = self._check(z3.And(z3.Not(t), *tame))
+                if r2 == 'sat':
+                    m = m2
             self.findings.append(Finding(
                 label, 'obligation', detail or str(t)[:300],
                 list(self.trace), self.model_dict(m)))
